@@ -99,8 +99,8 @@ class MUnit(vcgen.Unit):
             st.assume(self.se.boolean(src, st, init=self.init))
         for src in self.c.requires:
             st.assume(self.se.boolean(src, st, init=self.init))
-        for nm, (var, n_src, term_src) in self.c.sums.items():
-            self.declare_sum(nm, var, n_src, term_src, st)
+        for nm, sdef in self.c.sums.items():
+            self.declare_sum(nm, sdef[0], sdef[1], sdef[2], st, sdef[3] if len(sdef) > 3 else (), unit=(len(sdef) > 4 and sdef[4] == "unit"))
         for a, src in self.c.extents.items():
             if a in st.arrs and src is not None:
                 ev.extents[a] = self.se.term(src, st, init=self.init)
